@@ -57,12 +57,13 @@ TABLE_NOTE = (
     "NOT in the model: the per-object caches of wrapper objects (_indexes, the _rmap of a cached Row object), row/column styles, spans, and the order of "
     "column and row elements among the table's children - these are decided by the correspondence / lxml oracles of the check at every step. The history "
     "theorems exclude one state: rows without any declared column (only reachable by deleting the last column of a table that has rows), where the property "
-    "does not say what a later operation should declare; histories are cut there on both sides. Bulk setters (set_values, set_cells, set_row_values, "
-    "set_row_cells, set_column_values) are in the executable model and the correspondence but not yet in the proved alphabet. "
+    "does not say what a later operation should declare; histories are cut there on both sides. The proved alphabet holds 13 operations incl. the bulk setters set_cells and "
+    "set_values (with the fast path of Row.set_values); set_row_values / set_row_cells are instances of set_row; set_column_values is in the executable model "
+    "and the correspondence but not in the proved alphabet. "
 )
 CHECKS["C01"] = dict(
     text="Refinement proof: for every coherent run-length state, every operation of the alphabet (set/insert/append/delete of cells, rows, columns, with "
-    "repeats on arguments and targets), every integer coordinate and every repeat >= 1, the model step succeeds and denotes exactly the list-of-lists "
+    "repeats on arguments and targets, and the matrix setters set_cells / set_values), every integer coordinate and every repeat >= 1, the model step succeeds and denotes exactly the list-of-lists "
     "operation (step_refines); by induction every finite history does (history_refines, history_reads); the three vault edits incl. overlap trimming are "
     "proved at the run-length level. Correspondence: ~7000 steps per quick run of random histories (Table API and Row API) over random encodings, model vs "
     "implementation (lxml reading) vs Lean spec grid vs Python reference grid, all reads compared after every step.",
